@@ -221,5 +221,58 @@ theorem fold_sound (fl : Flags) (w : World) (N : Node) (hg : FoldOK N) (st : St)
       split <;> exact sim_refl c _
   · exact sim_refl c _
 
+
+/-- the guard of the fold pass relative to the switches: what the model checks itself (`foldPlainOnly`: the
+    literals of `+ - * /` and of the unary signs carry the annotation `int` or none) need not be assumed -/
+def FoldOKf (fl : Flags) : Node → Prop
+  | .unary m _ (.int mi i) => inRange .int i ∧ m.kd = mi.kd ∧ (fl.foldPlainOnly = false → plainKd mi.kd = true)
+  | .binary m op (.int ma a) (.int mb b) =>
+    op ≠ "**" ∧ inRange .int a ∧ inRange .int b ∧
+    (op = "%" → plainKd ma.kd = true ∧ plainKd mb.kd = true ∧ plainKd m.kd = true) ∧
+    (op ≠ "%" → m.kd = ma.kd ∧ (fl.foldPlainOnly = false → plainKd ma.kd = true ∧ plainKd mb.kd = true))
+  | .array _ xs => xs.isEmpty = true ∨ (allInts xs = none ∧ allStrs xs = none)
+  | _ => True
+
+theorem fold_sound_f (fl : Flags) (w : World) (N : Node) (hg : FoldOKf fl N) (st : St) :
+    Sim c (foldRule fl w N st).1 N := by
+  unfold FoldOKf at hg
+  split at hg
+  · rename_i m op mi i
+    obtain ⟨hi, hkd, hpl⟩ := hg
+    by_cases hp : plainKd mi.kd = true
+    · exact fold_sound fl w _ (show FoldOK (.unary m op (.int mi i)) from ⟨⟨hp, hi⟩, hkd⟩) st
+    · have hf : fl.foldPlainOnly = true := by
+        cases h : fl.foldPlainOnly with
+        | true => rfl
+        | false => exact absurd (hpl h) hp
+      have hp' : plainKd mi.kd = false := by simpa using hp
+      simp only [foldRule, hf, hp', Bool.not_false, Bool.and_self, if_true]
+      exact sim_refl c _
+  · rename_i m op ma a mb b
+    obtain ⟨hpow, ha, hb, hmod, hoth⟩ := hg
+    by_cases hp : plainKd ma.kd = true ∧ plainKd mb.kd = true
+    · refine fold_sound fl w _ (show FoldOK (.binary m op (.int ma a) (.int mb b)) from
+        ⟨hpow, ⟨hp.1, ha⟩, ⟨hp.2, hb⟩, fun h => (hmod h).2.2, fun h => (hoth h).1⟩) st
+    · have hm : op ≠ "%" := fun h => hp ⟨(hmod h).1, (hmod h).2.1⟩
+      have hf : fl.foldPlainOnly = true := by
+        cases h : fl.foldPlainOnly with
+        | true => rfl
+        | false => exact absurd ((hoth hm).2 h) hp
+      have hp' : (plainKd ma.kd && plainKd mb.kd) = false := by
+        cases h1 : plainKd ma.kd <;> cases h2 : plainKd mb.kd <;> simp_all
+      have e5 : (op == "%") = false := by simpa using hm
+      have e6 : (op == "**") = false := by simpa using hpow
+      simp only [foldRule, hf, hp', Bool.not_false, Bool.and_self, if_true, e5, e6, Bool.false_eq_true, if_false]
+      split <;> exact sim_refl c _
+  · exact fold_sound fl w _ (by simpa only [FoldOK] using hg) st
+  · rename_i h1 h2 h3
+    refine fold_sound fl w N ?_ st
+    unfold FoldOK
+    split
+    · exact (h1 _ _ _ _ rfl).elim
+    · exact (h2 _ _ _ _ _ _ rfl).elim
+    · exact (h3 _ _ rfl).elim
+    · trivial
+
 end OptProofs
 end ExprModel
